@@ -1,7 +1,8 @@
 (* Model for C11 in a versioning-enabled bucket: DeleteObject (no version id) turns the current object into a delete marker *in
-   place*. The steps on the filesystem (posix.go DeleteObject): the current version is copied into the versioning directory under
-   its id (createObjVersion), then two attributes of the current file are written: the marker's own, fresh version id and the
-   delete-marker flag. A killed request is a prefix of these steps.
+   place* until repair 3001e11 and by a rename since. The steps on the filesystem (posix.go DeleteObject): the current version is
+   copied into the versioning directory under its id (createObjVersion); then a temporary file receives the marker's own, fresh
+   version id and the delete-marker flag and is renamed over the current file (before the repair: the two attributes were written
+   onto the current file itself). A killed request is a prefix of these steps.
 
    What ListObjectVersions / GET ?versionId show (fileToObjVersions): the current entry under its id, and every archived entry
    whose id differs from the current one (an archived copy with the id of the current entry is taken for the leftover of an
@@ -15,17 +16,23 @@ Record vstate := { current : cur; archive : list (nat * nat) }.     (* archive: 
 Inductive vstep :=
 | V_archive                 (* copy the current version into the versioning directory under its id *)
 | V_set_vid (v : nat)       (* write the version-id attribute of the current file *)
-| V_set_marker.             (* write the delete-marker attribute of the current file *)
+| V_set_marker              (* write the delete-marker attribute of the current file *)
+| V_prepare                 (* write the marker's attributes onto a temporary file (nothing of it is visible) *)
+| V_publish (v : nat).      (* rename the prepared marker (version id v) over the current file *)
 
 Definition do_vstep (s : vstate) (x : vstep) : vstate :=
   match x with
   | V_archive => {| current := current s; archive := (c_vid (current s), c_data (current s)) :: archive s |}
   | V_set_vid v => {| current := {| c_data := c_data (current s); c_vid := v; c_marker := c_marker (current s) |}; archive := archive s |}
   | V_set_marker => {| current := {| c_data := c_data (current s); c_vid := c_vid (current s); c_marker := true |}; archive := archive s |}
+  | V_prepare => s
+  | V_publish v => {| current := {| c_data := 0; c_vid := v; c_marker := true |}; archive := archive s |}
   end.
 
-(* the order of the repaired code, and the order before the repair *)
-Definition delete_steps (fresh : nat) : list vstep := [V_archive; V_set_vid fresh; V_set_marker].
+(* the steps of the code as it is (repair 3001e11: the marker is a new file renamed over the current version), and the two earlier
+   forms, which re-labelled the current file in place: the id first and the flag second (repair 80e96b2), and the flag first *)
+Definition delete_steps (fresh : nat) : list vstep := [V_archive; V_prepare; V_publish fresh].
+Definition delete_steps_inplace (fresh : nat) : list vstep := [V_archive; V_set_vid fresh; V_set_marker].
 Definition delete_steps_old (fresh : nat) : list vstep := [V_archive; V_set_marker; V_set_vid fresh].
 
 Definition run_killed (steps : list vstep) (s : vstate) (k : nat) : vstate := fold_left do_vstep (firstn k steps) s.
